@@ -192,6 +192,14 @@ func (C04) Run(c core.Case, ctx *core.Ctx) []core.Violation {
 				}
 			}
 		}
+		// a failure (also a memoised one) must never turn into made-up values downstream
+		if fired {
+			for _, on := range rt.Online {
+				if on.Class == "invented-value" {
+					add("zero-value-flowed-on-after-failure", on.Detail)
+				}
+			}
+		}
 		if fired {
 			ctx.MarkNontrivial(sh, sim)
 		}
